@@ -296,3 +296,44 @@ def c04h(ctx):
         else:
             ctx.bad('%s:%s' % (o.rule, o.construct), o.msg, o.where)
     ctx.stats['functions'] |= sub.stats['functions']
+
+
+@rule('C04.i', floor=4)
+def c04i(ctx):
+    """the crop positions of a meta tile follow its real buffer: where the buffered rectangle is cut at the grid border, the buffer of
+    that edge (in pixels) shrinks by exactly the distance that was cut off -- (grid edge - buffered edge) / resolution, measured before
+    the coordinate is replaced by the grid edge.  _tiles_pattern places the tiles with these buffers: a buffer that is too small or
+    too large by n pixels cuts every tile of the meta tile n pixels off its place"""
+    from ..flow import affine
+    fn = ctx.fn(G + ':MetaGrid._buffered_bbox')
+    bp = fn.params[1]
+    sets = [st for st in fn.walk() if isinstance(st, ast.Assign) and isinstance(st.targets[0], ast.Subscript) and
+            unparse(st.targets[0].value) == 'buffers' and isinstance(const_value(st.targets[0].slice), int)]
+    seen = set()
+    for st in sets:
+        k = const_value(st.targets[0].slice)
+        seen.add(k)
+        v = fn.canon.expr(st.value)
+        ok = isinstance(v, ast.BinOp) and isinstance(v.op, ast.Sub) and unparse(v.left).replace(' ', '') == 'buffers[%d]' % k
+        detail = unparse(v)[:90]
+        if ok:
+            r = v.right
+            while isinstance(r, ast.Call) and simple_name(r) in ('int', 'round') and r.args:
+                r = r.args[0]
+            ok = isinstance(r, ast.BinOp) and isinstance(r.op, ast.Div) and unparse(r.right).replace(' ', '') == 'self.grid.resolution(level)'
+            if ok:
+                a = affine(r.left)
+                a = {k_.replace(' ', ''): c for k_, c in (a or {}).items() if c != 0}
+                sgn = 1 if k < 2 else -1
+                want = {'self.grid.bbox[%d]' % k: sgn, '%s[%d]' % (bp, k): -sgn, 'self.meta_buffer*self.grid.resolution(level)': 1}
+                ok = a == want
+                detail = 'cut-off distance %s' % unparse(r.left)[:90]
+        # the branch is the one that clips this edge
+        iff = enclosing(st, ast.If)
+        ok = ok and iff is not None and contains(iff.test, lambda x: isinstance(x, ast.Subscript) and unparse(x.value) == 'self.grid.bbox' and const_value(x.slice) == k)
+        ctx.check(ok, 'MetaGrid._buffered_bbox:buffer%d-shrinks-by-cut' % k,
+                  'buffers[%d] -= (distance between the grid edge %d and the buffered edge) / resolution, in the branch that clips that edge' % (k, k), fn, st,
+                  fail='the buffer of edge %d is not reduced by the distance that was cut off at the grid border (%s): the tiles of a meta tile '
+                       'at the border are cropped at the wrong offset' % (k, detail))
+    if seen != {0, 1, 2, 3}:
+        ctx.bad('MetaGrid._buffered_bbox:all-edges', 'buffers are adjusted for edges %s only' % sorted(seen), fn)
